@@ -448,7 +448,7 @@ func (c *C07Case) viaCompiler() (*Violation, string) {
 
 // ---- generator ----
 
-var c07Letters = []string{"a", "b", "c", "i", "m", "W", "é", "ß", "日", ".", ",", "!", "'", "-", "0", "1", "}"}
+var c07Letters = []string{"a", "b", "c", "i", "m", "W", "n", "l", "p", "N", `\e`, "é", "ß", "日", ".", ",", "!", "'", "-", "0", "1", "}"}
 var c07Codes = []string{"{PLAYER}", "{COLOR RED}", "{STR_VAR_1}", "{PAUSE 10}", "{PKMN}"}
 
 func genC07(t *rapid.T) *C07Case {
